@@ -617,7 +617,6 @@ impl Drop for LocalParentGuard {
         #[cfg(feature = "enable")]
         if let Some(inner) = self.inner.take() {
             let (spans, token) = inner.collector.collect_spans_and_token();
-            debug_assert!(token.is_some());
             if let Some(token) = token {
                 inner
                     .collect
